@@ -1,0 +1,85 @@
+//go:build verif
+
+// Contracts for the deductive verifier in /verif (govc); comments only.
+
+package fs
+
+// ---------------------------------------------------------------------------
+// copy_nowindows.go
+// ---------------------------------------------------------------------------
+
+// a device, fifo or socket stub is created with the source's permission bits
+// and its exact type bits (a socket becomes a typeless stub); the device number
+// is carried over for devices only
+//@ func copyDevice
+//@   property C13
+//@   mode bv
+//@   requires isptr(fi.Sys(), syscall.Stat_t) ==> asptr(fi.Sys(), syscall.Stat_t) != nil
+//@   effects Mknod
+//@   ensures nostat: !isptr(fi.Sys(), syscall.Stat_t) ==> result != nil && cnt(Mknod) == old(cnt(Mknod))
+//@   ensures once: isptr(fi.Sys(), syscall.Stat_t) ==> cnt(Mknod) == old(cnt(Mknod)) + 1 && arg(Mknod, 0) == dst
+//@   ensures perm: isptr(fi.Sys(), syscall.Stat_t) ==> arg(Mknod, 1) & 07777 == asptr(fi.Sys(), syscall.Stat_t).Mode & 07777
+//@   ensures type_preserved: isptr(fi.Sys(), syscall.Stat_t) && asptr(fi.Sys(), syscall.Stat_t).Mode & syscall.S_IFMT != syscall.S_IFSOCK ==> arg(Mknod, 1) & syscall.S_IFMT == asptr(fi.Sys(), syscall.Stat_t).Mode & syscall.S_IFMT
+//@   ensures socket_stub: isptr(fi.Sys(), syscall.Stat_t) && asptr(fi.Sys(), syscall.Stat_t).Mode & syscall.S_IFMT == syscall.S_IFSOCK ==> arg(Mknod, 1) & syscall.S_IFMT == 0
+//@   ensures rdev: isptr(fi.Sys(), syscall.Stat_t) ==> arg(Mknod, 2) == ite(fi.Mode() & os.ModeDevice == os.ModeDevice || fi.Mode() & os.ModeCharDevice == os.ModeCharDevice, int(asptr(fi.Sys(), syscall.Stat_t).Rdev), 0)
+
+// every xattr is read and written with the no-follow variants only
+//@ func copyXAttrs
+//@   property C13 C14
+//@   effects LListxattr LGetxattr LSetxattr XattrErr
+//@   loop 0 invariant dst_only: cnt(LSetxattr) == old(cnt(LSetxattr)) || arg(LSetxattr, 0) == dst
+//@   ensures dst_only: cnt(LSetxattr) > old(cnt(LSetxattr)) ==> arg(LSetxattr, 0) == dst
+//@   ensures listed: cnt(LListxattr) == old(cnt(LListxattr)) + 1 && arg(LListxattr, 0) == src
+
+// ---------------------------------------------------------------------------
+// mkdir_unix.go
+// ---------------------------------------------------------------------------
+
+//@ func Chown
+//@   property C13 C14
+//@   effects ChownerCall Lchown
+//@   ensures none: fn == nil ==> result == nil && cnt(Lchown) == old(cnt(Lchown))
+//@   ensures atmost: cnt(Lchown) <= old(cnt(Lchown)) + 1
+//@   ensures target: cnt(Lchown) > old(cnt(Lchown)) ==> arg(Lchown, 0) == p
+
+//@ func Utimes
+//@   property C13 C14
+//@   effects Utimes
+//@   ensures none: tm == nil ==> result == nil && cnt(Utimes) == old(cnt(Utimes))
+//@   ensures atmost: cnt(Utimes) <= old(cnt(Utimes)) + 1
+//@   ensures nofollow: cnt(Utimes) > old(cnt(Utimes)) ==> arg(Utimes, 0) == p && arg(Utimes, 5) == unix.AT_SYMLINK_NOFOLLOW && arg(Utimes, 1) == arg(Utimes, 3) && arg(Utimes, 2) == arg(Utimes, 4)
+//@   ensures ok: tm != nil && result == nil ==> cnt(Utimes) == old(cnt(Utimes)) + 1
+
+// ---------------------------------------------------------------------------
+// copy.go: decisions on an existing destination entry
+// ---------------------------------------------------------------------------
+
+// absent -> Mkdir; directory -> kept (chmod only when overwriting metadata);
+// anything else (file, symlink, device) -> error and nothing touched
+//@ func copyDirectoryOnly
+//@   property C15 C14 C16
+//@   effects Lstat LstatRes Mkdir MkdirOK Chmod
+//@   ensures inspect: cnt(Lstat) == old(cnt(Lstat)) + 1 && arg(Lstat, 0) == dst
+//@   ensures created: result0 ==> result1 == nil && cnt(MkdirOK) == old(cnt(MkdirOK)) + 1 && arg(Mkdir, 0) == dst && arg(Mkdir, 1) == stat.Mode() && cnt(Chmod) == old(cnt(Chmod))
+//@   ensures absent: arg(LstatRes, 1) != nil && os.IsNotExist(arg(LstatRes, 1)) && result1 == nil ==> result0
+//@   ensures nondir: arg(LstatRes, 1) == nil && !arg(LstatRes, 0).IsDir() ==> result1 != nil && !result0 && cnt(Mkdir) == old(cnt(Mkdir)) && cnt(Chmod) == old(cnt(Chmod))
+//@   ensures dir: arg(LstatRes, 1) == nil && arg(LstatRes, 0).IsDir() ==> !result0 && cnt(Mkdir) == old(cnt(Mkdir)) && (cnt(Chmod) > old(cnt(Chmod))) == overwriteTargetMetadata
+//@   ensures chmod: cnt(Chmod) > old(cnt(Chmod)) ==> arg(Chmod, 0) == dst && arg(Chmod, 1) == stat.Mode()
+
+// absent -> nothing; directory -> error, nothing touched; anything else -> removed (no-follow)
+//@ func ensureEmptyFileTarget
+//@   property C15 C14
+//@   effects Lstat LstatRes Remove
+//@   ensures inspect: cnt(Lstat) == old(cnt(Lstat)) + 1 && arg(Lstat, 0) == dst
+//@   ensures absent: arg(LstatRes, 1) != nil && os.IsNotExist(arg(LstatRes, 1)) ==> result == nil && cnt(Remove) == old(cnt(Remove))
+//@   ensures dir: arg(LstatRes, 1) == nil && arg(LstatRes, 0).IsDir() ==> result != nil && cnt(Remove) == old(cnt(Remove))
+//@   ensures other: arg(LstatRes, 1) == nil && !arg(LstatRes, 0).IsDir() ==> cnt(Remove) == old(cnt(Remove)) + 1 && arg(Remove, 0) == dst
+//@   ensures error: arg(LstatRes, 1) != nil && !os.IsNotExist(arg(LstatRes, 1)) ==> result != nil && cnt(Remove) == old(cnt(Remove))
+
+// replace only with always-replace, only an existing target, never directory over directory
+//@ func copier.removeTargetIfNeeded
+//@   property C15
+//@   requires c != nil && srcFi != nil
+//@   effects RemoveAll
+//@   ensures decision: (cnt(RemoveAll) > old(cnt(RemoveAll))) == (c.alwaysReplaceExistingDestPaths && targetFi != nil && !(srcFi.IsDir() && targetFi.IsDir()))
+//@   ensures target: cnt(RemoveAll) > old(cnt(RemoveAll)) ==> cnt(RemoveAll) == old(cnt(RemoveAll)) + 1 && arg(RemoveAll, 0) == target
